@@ -1739,8 +1739,19 @@ func (u *Unit) typeInvFacts(st *State, v Val) {
 // reach x.f). Listed as an assumption; sound for read-only uses of data that is not modified afterwards (route options).
 func (u *Unit) snapshotInterior(st *State, v Val) Val {
 	pt, ok := v.Ty.Underlying().(*types.Pointer)
-	if !ok || !isStructT(pt.Elem()) {
+	if !ok {
 		u.unsup("storing an interior pointer to a non-struct (%s)", v.Ty)
+	}
+	if !isStructT(pt.Elem()) {
+		// &x.f with f a scalar, string, map, slice or pointer field: a new cell holding the field's current value
+		if _, isArr := pt.Elem().Underlying().(*types.Array); isArr {
+			u.unsup("storing an interior pointer to an array (%s)", v.Ty)
+		}
+		cur := u.load(st, v, pt.Elem())
+		r := u.newRef(st)
+		u.heapStoreAt(st, u.cellHeap(pt.Elem()), r, cur.T)
+		u.note("address of a struct field stored in the heap: represented by a snapshot copy of the field's current value (not an alias)")
+		return Val{T: r, S: "Int", Ty: v.Ty}
 	}
 	stT := canon(pt.Elem())
 	sT := stT.Underlying().(*types.Struct)
